@@ -39,7 +39,8 @@ use testutils::empty_snapshot_options;
 use crate::common::Ws;
 
 /// The path universe, in jj's tree order ("gi" stands for ".gitignore").
-pub const PATHS: [&[&str]; 6] = [&["gi"], &["d"], &["d", "gi"], &["d", "x"], &["d", "y"], &["f"]];
+pub const PATHS: [&[&str]; 7] =
+    [&["gi"], &["d"], &["d", "gi"], &["d", "x"], &["d", "x", "z"], &["d", "y"], &["f"]];
 
 /// Ignore-file vocabulary: id (1-based) -> lines [neg, anchored, dir-only, name].
 pub const VOCAB: [&[(bool, bool, bool, &str)]; 7] = [
@@ -161,6 +162,10 @@ impl Env {
             let t = std::fs::read_link(path).unwrap();
             return val("symlink", 0, false, &self.target_from_disk(&t), vec![]);
         }
+        if !md.is_file() {
+            // fifo, socket, ...: exists, but is neither file, symlink nor directory
+            return val("special", 0, false, "", vec![]);
+        }
         let x = md.permissions().mode() & 0o111 != 0;
         let bytes = std::fs::read(path).unwrap_or_default();
         if let Some(c) = content_id(p, &bytes) {
@@ -180,8 +185,8 @@ impl Env {
             .map(|p| {
                 // a path below something that is not a real directory does not exist
                 // (never resolve through a symlinked parent)
-                let parent_is_dir = p.len() == 1
-                    || std::fs::symlink_metadata(self.fs_path(&p[..p.len() - 1])).is_ok_and(|m| m.is_dir());
+                let parent_is_dir = (1..p.len())
+                    .all(|n| std::fs::symlink_metadata(self.fs_path(&p[..n])).is_ok_and(|m| m.is_dir()));
                 if parent_is_dir { self.project_entry(p, &self.fs_path(p)) } else { absent() }
             })
             .collect()
@@ -194,27 +199,25 @@ impl Env {
 
     /// names on disk that are not in the universe (none expected)
     fn extra_entries(&self) -> Vec<String> {
-        let mut out = vec![];
-        let known_root = [".gitignore", "d", "f", ".jj"];
-        if let Ok(rd) = std::fs::read_dir(&self.root) {
+        fn walk(dir: &Path, rel: &mut Vec<String>, out: &mut Vec<String>) {
+            let Ok(rd) = std::fs::read_dir(dir) else { return };
             for e in rd.flatten() {
                 let n = e.file_name().to_string_lossy().into_owned();
-                if !known_root.contains(&n.as_str()) {
-                    out.push(n);
+                if rel.is_empty() && n == ".jj" {
+                    continue;
                 }
+                rel.push(if n == ".gitignore" { "gi".to_string() } else { n });
+                let known = PATHS.iter().any(|p| p.len() == rel.len() && p.iter().zip(rel.iter()).all(|(a, b)| a == b));
+                if !known {
+                    out.push(rel.join("/"));
+                } else if e.file_type().is_ok_and(|t| t.is_dir()) {
+                    walk(&e.path(), rel, out);
+                }
+                rel.pop();
             }
         }
-        let d = self.root.join("d");
-        if std::fs::symlink_metadata(&d).is_ok_and(|m| m.is_dir()) {
-            if let Ok(rd) = std::fs::read_dir(&d) {
-                for e in rd.flatten() {
-                    let n = e.file_name().to_string_lossy().into_owned();
-                    if ![".gitignore", "x", "y"].contains(&n.as_str()) {
-                        out.push(format!("d/{n}"));
-                    }
-                }
-            }
-        }
+        let mut out = vec![];
+        walk(&self.root, &mut vec![], &mut out);
         if let Ok(rd) = std::fs::read_dir(&self.outside) {
             for e in rd.flatten() {
                 let n = e.file_name().to_string_lossy().into_owned();
@@ -382,6 +385,17 @@ fn exec_step(env: &mut Env, st: &Value) -> Result<Value, String> {
         }
         "Delete" => {
             std::fs::remove_file(&path).map_err(io)?;
+            Ok(no_stats)
+        }
+        "Mkfifo" => {
+            if std::fs::symlink_metadata(&path).is_ok() {
+                std::fs::remove_file(&path).map_err(io)?;
+            }
+            let c = std::ffi::CString::new(path.as_os_str().as_encoded_bytes()).map_err(|e| e.to_string())?;
+            // SAFETY: plain libc call with a valid C string
+            if unsafe { libc::mkfifo(c.as_ptr(), 0o644) } != 0 {
+                return Err(format!("mkfifo {}: {}", path.display(), std::io::Error::last_os_error()));
+            }
             Ok(no_stats)
         }
         "FileToDir" => {
@@ -574,6 +588,7 @@ enum K {
     File,
     Symlink,
     Dir,
+    Special,
 }
 
 fn idx(p: &[&str]) -> usize {
@@ -606,7 +621,9 @@ fn random_tree(rng: &mut Rng, conflicts: bool) -> Vec<Value> {
         0 => {}
         1 => t[idx(&["d"])] = leaf(rng, &["d"], conflicts),
         _ => {
-            for p in [&["d", "gi"][..], &["d", "x"][..], &["d", "y"][..]] {
+            let deep = rng.chance(1, 3);
+            let dx: &[&str] = if deep { &["d", "x", "z"] } else { &["d", "x"] };
+            for p in [&["d", "gi"][..], dx, &["d", "y"][..]] {
                 let pr = if is_ignore_path(p) { 4 } else { 2 };
                 if rng.chance(1, pr) {
                     t[idx(p)] = leaf(rng, p, conflicts);
@@ -621,6 +638,31 @@ fn random_script(rng: &mut Rng, len: usize, focus: &str) -> Value {
     let mut steps = vec![];
     let sparse_sets: Vec<Vec<Vec<&str>>> =
         vec![vec![vec![]], vec![vec!["d"]], vec![vec!["f"]], vec![vec!["d", "x"], vec!["f"]], vec![vec!["gi"], vec!["d", "y"]], vec![]];
+    if focus == "snapshot" && rng.chance(1, 3) {
+        // a tracked path one or two levels inside a directory that is ignored as a whole,
+        // replaced by an empty directory / a directory with a new child / a special file
+        let deep = rng.chance(1, 2);
+        let tp: &[&str] = if deep { &["d", "x", "z"] } else { &["d", "x"] };
+        let mut t: Vec<Value> = PATHS.iter().map(|_| absent()).collect();
+        t[idx(&["gi"])] = val("file", *rng.pick(&[2i64, 7, 4]), false, "", vec![]);
+        t[idx(tp)] = val("file", rng.range(1, 2) as i64, rng.chance(1, 3), "", vec![]);
+        if rng.chance(1, 2) {
+            t[idx(&["d", "y"])] = val("file", 1, false, "", vec![]);
+        }
+        steps.push(json!({"a":"CheckOut","tree":t}));
+        if rng.chance(1, 3) {
+            steps.push(json!({"a":"Snapshot"}));
+        }
+        match rng.below(4) {
+            0 => steps.push(json!({"a":"Mkfifo","p":tp})),
+            1 if !deep => {
+                steps.push(json!({"a":"FileToDir","p":tp}));
+                steps.push(json!({"a":"Write","p":["d","x","z"],"c":1}));
+            }
+            _ => steps.push(json!({"a":"FileToDir","p":tp})),
+        }
+        steps.push(json!({"a":"Snapshot"}));
+    }
     let mut tries = 0;
     while steps.len() < len && tries < 1000 {
         tries += 1;
@@ -649,14 +691,18 @@ fn random_script(rng: &mut Rng, len: usize, focus: &str) -> Value {
         // `random`), so here we only draw the shape
         let p = *rng.pick(&PATHS);
         let c = if is_ignore_path(p) { rng.range(1, VOCAB.len()) } else { rng.range(1, 2) } as i64;
-        let e = match rng.below(12) {
+        // directories: mostly d, sometimes any other path (an empty directory where a file was)
+        let dp: &[&str] = if rng.chance(1, 2) { &["d"] } else { *rng.pick(&[&["d", "x"][..], &["d", "x", "z"][..], &["d", "y"][..], &["f"][..], &["d"][..]]) };
+        let cd = rng.range(1, 2) as i64;
+        let e = match rng.below(14) {
             0..=4 => json!({"a":"Write","p":p,"c":c}),
             5 => json!({"a":"Chmod","p":p}),
             6 => json!({"a":"Symlink","p":p,"t": if rng.chance(1, 2) { "f" } else { "out" }}),
             7 | 8 => json!({"a":"Delete","p":p}),
-            9 => json!({"a":"FileToDir","p":["d"]}),
-            10 => json!({"a":"DirToFile","p":["d"],"c":c}),
-            _ => json!({"a":"RmTree","p":["d"]}),
+            9 | 10 => json!({"a":"FileToDir","p":dp}),
+            11 => json!({"a":"DirToFile","p":dp,"c":cd}),
+            12 => json!({"a":"Mkfifo","p":p}),
+            _ => json!({"a":"RmTree","p":dp}),
         };
         steps.push(e);
     }
@@ -677,10 +723,11 @@ fn edit_applicable(env: &Env, st: &Value) -> bool {
             Err(_) => K::Absent,
             Ok(m) if m.is_dir() => K::Dir,
             Ok(m) if m.file_type().is_symlink() => K::Symlink,
-            Ok(_) => K::File,
+            Ok(m) if m.is_file() => K::File,
+            Ok(_) => K::Special,
         }
     };
-    let parent_ok = p.len() == 1 || kind(&p[..p.len() - 1]) == K::Dir;
+    let parent_ok = (1..p.len()).all(|n| kind(&p[..n]) == K::Dir);
     if !parent_ok {
         // below something that is not a real directory nothing exists (and the
         // "user" never reaches through a symlinked directory)
@@ -690,9 +737,10 @@ fn edit_applicable(env: &Env, st: &Value) -> bool {
     match a {
         "Write" => parent_ok && (k == K::Absent || k == K::File),
         "Chmod" => k == K::File && !is_ignore_path(&p),
-        "Symlink" => parent_ok && k != K::Dir && !is_ignore_path(&p),
-        "Delete" => k == K::File || k == K::Symlink,
-        "FileToDir" => parent_ok && k != K::Dir,
+        "Symlink" => matches!(k, K::Absent | K::File | K::Symlink) && !is_ignore_path(&p),
+        "Delete" => matches!(k, K::File | K::Symlink | K::Special),
+        "Mkfifo" => matches!(k, K::Absent | K::File | K::Symlink) && !is_ignore_path(&p),
+        "FileToDir" => k != K::Dir && !is_ignore_path(&p),
         "RmTree" | "DirToFile" => k == K::Dir,
         _ => true,
     }
